@@ -38,6 +38,10 @@ fn gen(seed: u64, idx: usize) -> Hostile {
     let mut rng = Rng::derive(seed, 4, idx as u64);
     let kind = idx % KINDS.len();
     let method = METHODS[(idx / KINDS.len()) % 6];
+    // BDF with its finite-difference Jacobian of a sign function (entries ~1/delta) creeps through chattering problems with
+    // steps of 1e-8 whatever the tolerance: always the whole evaluation budget, always inconclusive. It gets the bounded
+    // discontinuity of kind 5 instead.
+    let kind = if (kind == 14 || kind == 18) && method == Method::BDF { 5 } else { kind };
     let mut x0 = 0.0;
     let mut xend;
     let mut y0 = vec![1.0];
@@ -188,7 +192,7 @@ fn gen(seed: u64, idx: usize) -> Hostile {
         18 => {
             // the right-hand side jumps by a large amount when the state crosses a threshold
             let thr = rng.range(0.3, 0.8);
-            let jump = *rng.pick(&[10.0, 1e3, 1e6]);
+            let jump = *rng.pick(&[3.0, 10.0, 100.0]);
             xend = rng.range(2.0, 6.0);
             y0 = vec![1.0];
             fnp(1, &format!("y' = -y + {} [y < {}]", jump, thr), move |_t, y, d| d[0] = -y[0] + if y[0] < thr { jump } else { 0.0 })
@@ -229,8 +233,11 @@ fn gen(seed: u64, idx: usize) -> Hostile {
     let mut scn = Scn::new(method, x0, xend, y0);
     // loose (default-like) tolerances half of the time: stiffness detection does not mask a missing guard there
     let rt = if rng.bool() { rng.logu(1e-4, 1e-3) } else { rng.logu(1e-8, 1e-3) };
+    // chattering problems cost span / (tol / k) steps: with tolerances below 1e-4 they crawl through the whole evaluation
+    // budget (inconclusive, and 15 s of CPU each)
+    let rt = if kind == 14 || kind == 18 { rt.max(1e-4) } else { rt };
     scn.rtol = Tol::S(rt);
-    scn.atol = Tol::S(rt * rng.logu(1e-3, 1.0));
+    scn.atol = Tol::S(rt * if kind == 14 || kind == 18 { rng.logu(1e-1, 1.0) } else { rng.logu(1e-3, 1.0) });
     scn.budget = BUDGET;
     if method == Method::RK4 && kind != 12 {
         scn.first_step = Some((xend - x0) / rng.range(50.0, 2000.0));
@@ -378,7 +385,7 @@ fn run_child(seed: u64, idx: usize) -> ChildResult {
 
 pub fn run(ctx: &Ctx) -> (Report, Meta) {
     let meta = Meta::new(
-        "hostile right-hand sides, one solve_ivp call per child process: finite-time blow-up (y^2, 1+y^2, exp(y), singularity at several distances and on either side of the origin), sqrt leaving its domain (also with the boundary reached exactly at xend), NaN / +inf returned after a time or in a region of state space or at the initial point, bounded discontinuous forcing, stiff decay (rates 1e4..1e6) with explicit methods, zero right-hand side over spans up to 1e6, NaN in a single component of three, -inf after a time, a sliding mode (y' = -k sign y), right-hand sides of size 1e300..1e307 (internal overflow), one blowing-up component among three, a state-dependent jump of size 10..1e6; x 6 methods x {unlimited step budget, max_steps 10..1e4} x {plain, t_eval, dense_output, events} x {forward, time-reflected backward}; a child that exhausts 2e7 right-hand-side evaluations without progress (the smallest |t - x0| evaluated in a window of 1e6 calls does not grow between the last two windows) (or 60 s of CPU time) is a bounded-work violation; non-trivial = child whose right-hand side actually returned a non-finite value or whose run ended with a non-success status (distinct by case index)",
+        "hostile right-hand sides, one solve_ivp call per child process: finite-time blow-up (y^2, 1+y^2, exp(y), singularity at several distances and on either side of the origin), sqrt leaving its domain (also with the boundary reached exactly at xend), NaN / +inf returned after a time or in a region of state space or at the initial point, bounded discontinuous forcing, stiff decay (rates 1e4..1e6) with explicit methods, zero right-hand side over spans up to 1e6, NaN in a single component of three, -inf after a time, a sliding mode (y' = -k sign y), right-hand sides of size 1e300..1e307 (internal overflow), one blowing-up component among three, a state-dependent jump of size 3..100; x 6 methods x {unlimited step budget, max_steps 10..1e4} x {plain, t_eval, dense_output, events} x {forward, time-reflected backward}; a child that exhausts 2e7 right-hand-side evaluations without progress (the smallest |t - x0| evaluated in a window of 1e6 calls does not grow between the last two windows) (or 60 s of CPU time) is a bounded-work violation; non-trivial = child whose right-hand side actually returned a non-finite value or whose run ended with a non-success status (distinct by case index)",
     )
     .assume("termination is decided as bounded work: logical budget of 2e7 evaluations (>= 1000 x what a terminating solver needs on these problems) plus stall detection; budget exhaustion with continuing progress and the 180 s wall-clock watchdog are inconclusive, never violations")
     .assume("fixed-step RK4 is not error controlled: non-finite values and integration past a singularity are not violations for it")
@@ -386,7 +393,7 @@ pub fn run(ctx: &Ctx) -> (Report, Meta) {
     .floor("children_run", 300)
     .floor("children_with_nonsuccess_status", 100)
     .floor("children_rhs_went_nonfinite", 60);
-    let n = ctx.size(16 * 6 * KINDS.len(), 1_600 * 6 * KINDS.len());
+    let n = ctx.size(16 * 6 * KINDS.len(), 1_200 * 6 * KINDS.len());
     let rep = par_for(n, "C04", |i, rep| {
         let case_id = format!("child/{}", i);
         if !ctx.want(&case_id) {
@@ -466,7 +473,7 @@ pub fn run(ctx: &Ctx) -> (Report, Meta) {
                         }
                     }
                     77 => rep.violate(&sig("bounded_work"), format!("evaluation budget of {} exhausted without progress during the last {} evaluations: {}", BUDGET, STALL_WINDOW, line), &case_id, case),
-                    79 => rep.inconclusive("budget_exhausted_while_still_progressing_(crawl)"),
+                    79 => rep.inconclusive(&format!("budget_exhausted_while_still_progressing_(crawl)_{}_{}", kn, m)),
                     78 => rep.violate(&sig("no_panic"), format!("solve_ivp panicked: {}", v["message"]), &case_id, case),
                     c if c == 128 + 24 || c == 137 || c == 152 => rep.violate(&sig("bounded_work"), format!("CPU-time limit of 60 s hit (exit code {}): the call does not return", c), &case_id, case),
                     c => rep.violate(&sig("no_abort"), format!("child died with exit code {} (abort / signal): {}", c, out), &case_id, case),
